@@ -5,6 +5,7 @@
   Thread-level interleavings inside numpy/scikit-learn are outside the model: `schedule_independent` is a theorem about the
   task-event model (each task owns its clone); the harness adds runs under dask's synchronous/threaded schedulers.
 -/
+import VerdeModel.Gen.ModelSel
 import VerdeModel.Gen.Score
 import VerdeModel.Model.Score
 import VerdeModel.Lemmas.CV
@@ -257,5 +258,39 @@ theorem src_cross_val_score {σ : Type} (E : Est σ) (scoring : Option Scoring) 
     Gen.crossValScore E rows splits scoring = splits.map fun sp => fitScore E (scoring.getD .r2) (rows.select sp.1) (rows.select sp.2) := by
   rw [gen_cross_val_score_eq_model]
   exact ⟨by simp [crossValScore], rfl⟩
+
+/-! ## `SplineCV.fit`'s selection and `train_test_split`'s row selection as regenerated from the source (Gen/ModelSel.lean) -/
+
+/-- The grid of candidates in the order `SplineCV` visits it: `mindists` outer, `dampings` inner. -/
+def cvGrid (mindists dampings : List Rat) : List (Rat × Rat) := mindists.flatMap fun m => dampings.map fun d => (m, d)
+
+/-- **Bridge.**  The selection of `SplineCV.fit` as regenerated from the source: `scores_` are the mean cross-validated scores of the candidates in
+    grid order, `best` is the model's arg-max (first among ties) and `spline_` carries the `(mindist, damping)` of that very candidate. -/
+theorem gen_spline_cv_fit_eq_model (mindists dampings : List Rat) (cv : Rat → Rat → List Rat) :
+    Gen.splineCVFit mindists dampings cv =
+      ((cvGrid mindists dampings).map (fun p => listMean (cv p.1 p.2)),
+       splineCVSelect ((cvGrid mindists dampings).map fun p => cv p.1 p.2),
+       (cvGrid mindists dampings)[splineCVSelect ((cvGrid mindists dampings).map fun p => cv p.1 p.2)]?) := by
+  unfold Gen.splineCVFit splineCVSelect cvGrid
+  simp only [List.map_map, Function.comp_def, listMean]
+
+/-- **Bridge.**  The row selection of `train_test_split` as regenerated from the source. -/
+theorem gen_train_test_split_eq_model (rows : Rows) (split : List Nat × List Nat) :
+    Gen.trainTestSplit rows split = trainTestSplit rows split := rfl
+/-- **SplineCV picks the arg-max — about the source as it is now:** with at least one candidate, `spline_` is built from a candidate of the grid
+    and no candidate has a higher mean cross-validated score than it. -/
+theorem src_spline_cv_selects_max (mindists dampings : List Rat) (cv : Rat → Rat → List Rat) (hne : cvGrid mindists dampings ≠ []) :
+    ∃ p, (Gen.splineCVFit mindists dampings cv).2.2 = some p ∧ p ∈ cvGrid mindists dampings ∧
+      ∀ q ∈ cvGrid mindists dampings, listMean (cv q.1 q.2) ≤ listMean (cv p.1 p.2) := by
+  rw [gen_spline_cv_fit_eq_model]
+  have hne' : ((cvGrid mindists dampings).map fun p => cv p.1 p.2) ≠ [] := by simpa using hne
+  obtain ⟨h, hmax⟩ := splinecv_selects_max _ hne'
+  have hlt : splineCVSelect ((cvGrid mindists dampings).map fun p => cv p.1 p.2) < (cvGrid mindists dampings).length := by simpa using h
+  refine ⟨(cvGrid mindists dampings)[splineCVSelect ((cvGrid mindists dampings).map fun p => cv p.1 p.2)], ?_, List.getElem_mem hlt, ?_⟩
+  · simp only [List.getElem?_eq_getElem hlt]
+  · intro q hq
+    obtain ⟨k, hk, rfl⟩ := List.mem_iff_getElem.mp hq
+    have := hmax k (by simpa using hk)
+    simpa [listMean] using this
 
 end Verde.C12
